@@ -68,6 +68,7 @@ func c17Run(c c17Case) (nontrivial bool, inconclusive bool, lateness []time.Dura
 		sleep time.Duration
 		off   time.Duration
 		far   bool
+		child time.Duration // >= 0: when it runs, the task submits another one due this much later (as session updates do)
 	}
 	plans := make([][]plan, c.Submitters)
 	for s := range plans {
@@ -110,11 +111,16 @@ func c17Run(c c17Case) (nontrivial bool, inconclusive bool, lateness []time.Dura
 			if !p.far {
 				prev = max(p.off, 0)
 			}
+			p.child = -1
+			if !p.far && rng.IntN(4) == 0 {
+				p.child = time.Duration(rng.IntN(4)) * time.Duration(rng.IntN(15)) * time.Millisecond
+			}
 			plans[s] = append(plans[s], p)
 		}
 	}
 	start := time.Now()
 	var lastNear atomic.Int64
+	nested := 0
 	for s := 0; s < c.Submitters; s++ {
 		wg.Add(1)
 		go func(s int) {
@@ -138,23 +144,39 @@ func c17Run(c c17Case) (nontrivial bool, inconclusive bool, lateness []time.Dura
 				mu.Lock()
 				tasks = append(tasks, t)
 				mu.Unlock()
-				ts.Put(func() {
-					n := time.Now()
-					if t.runs.Add(1) == 1 {
-						t.ranAt.Store(n.UnixNano())
-						if n.Before(t.deadline) {
-							t.early.Store(true)
+				var run func(t *c17Task, child time.Duration) func()
+				run = func(t *c17Task, child time.Duration) func() {
+					return func() {
+						n := time.Now()
+						if t.runs.Add(1) == 1 {
+							t.ranAt.Store(n.UnixNano())
+							if n.Before(t.deadline) {
+								t.early.Store(true)
+							}
+							if child >= 0 {
+								// submitted from inside a running task, on a scheduler goroutine
+								ct := &c17Task{id: 1000 + t.id, submitter: t.submitter, submitted: n, deadline: n.Add(child)}
+								if d := ct.deadline.UnixNano(); d > lastNear.Load() {
+									lastNear.Store(d)
+								}
+								mu.Lock()
+								tasks = append(tasks, ct)
+								nested++
+								mu.Unlock()
+								ts.Put(run(ct, -1), ct.deadline)
+							}
 						}
 					}
-				}, t.deadline)
+				}
+				ts.Put(run(t, p.child), t.deadline)
 			}
 		}(s)
 	}
 	wg.Wait()
 	submitSpan := time.Since(start)
 	// wait until every near task has run, at most until the last near deadline + grace
-	limit := time.Unix(0, lastNear.Load()).Add(c17Grace)
 	for {
+		limit := time.Unix(0, lastNear.Load()).Add(c17Grace) // tasks submitted by tasks move it
 		pending := 0
 		mu.Lock()
 		for _, t := range tasks {
